@@ -1,6 +1,6 @@
 package main
 
-// C06 — Object behaves as a string-keyed map with reference semantics (operand-role clauses).
+// C06 — Object behaves as a string-keyed map with reference semantics (operand-role clauses), on the SX path normal form.
 
 import (
 	"go/ast"
@@ -11,12 +11,12 @@ import (
 func init() {
 	register(&Property{
 		ID: "C06",
-		Explanation: "Object methods are thin wrappers over Go map operations (trusted semantics); decided are the operand roles: Set's panics are guarded by exactly `odd count` and `key not a string` and its pairs are applied in ascending order by " +
-			"plain map assignment of parseVal(values[i+1]) under values[i].(string) (last pair wins); Unset deletes each argument, Clear installs a fresh map, KeyExists/Get/TypeOf index the same spine, Get panics exactly on a missing key, " +
+		Explanation: "Object methods are thin wrappers over Go map operations (trusted semantics); decided, on the symbolic path normal form (SX), are the operand roles: Set panics exactly on an odd argument count (before any write) and on a non-string key, and applies its pairs " +
+			"in ascending order (header simulated for 0..8 arguments) by plain map assignment spine[values[2j].(string)] = parseVal(values[2j+1]) (last pair wins); Unset deletes each argument once, Clear installs a fresh map, KeyExists/Get index the receiver's spine, Get panics exactly on a missing key, " +
 			"KeyOf panics exactly after an exhausted search; Merge clones the RECEIVER and Sets the ARGUMENT's pairs into it; Pluck Sets Get(key) unconditionally for every requested key; Keys/Values range the spine unfiltered; observers are write-free (E3). " +
 			"Full map-model conformance over all histories is not decided.",
 		Rules: []Rule{
-			{ID: "C06.R1", Doc: "Set: odd-count panic, non-string-key panic, ascending pairs i=0,2,.., map assignment spine[values[i].(string)] = parseVal(values[i+1])", Run: c06Set},
+			{ID: "C06.R1", Doc: "Set: odd-count panic before any write, non-string-key panic, ascending pairs, map assignment spine[values[2j].(string)] = parseVal(values[2j+1])", Run: c06Set},
 			{ID: "C06.R2", Doc: "Unset/Clear/KeyExists/Get/KeyOf operate on the receiver's spine with the documented panic conditions", Run: c06Basics},
 			{ID: "C06.R3", Doc: "Merge: result = clone of the receiver; pairs Set into it come from iterating the argument", Run: c06Merge},
 			{ID: "C06.R4", Doc: "Pluck: unconditional result.Set(key, self.Get(key)) for every requested key", Run: c06Pluck},
@@ -38,160 +38,6 @@ func soleParam(c *Ctx, fd *ast.FuncDecl) types.Object {
 		return nil
 	}
 	return c.Info.Defs[fd.Type.Params.List[0].Names[0]]
-}
-
-func c06Set(c *Ctx) {
-	fd := c.NeedDecl("C06.R1", "(*object).Set")
-	if fd == nil {
-		return
-	}
-	values := soleParam(c, fd)
-	if values == nil {
-		c.Ob("C06.R1", "(*object).Set", fd.Pos()).Undecided("unexpected parameter list")
-		return
-	}
-	// local single-assignment aliases of len(values)
-	lenAlias := map[types.Object]bool{}
-	for _, s := range fd.Body.List {
-		if as, ok := s.(*ast.AssignStmt); ok && as.Tok == token.DEFINE && len(as.Lhs) == 1 && len(as.Rhs) == 1 {
-			if call, ok := unparen(as.Rhs[0]).(*ast.CallExpr); ok && c.isBuiltin(call, "len") && c.obj(call.Args[0]) == values {
-				if o := c.obj(as.Lhs[0]); o != nil && !writesVarAfterDef(c, fd, o) {
-					lenAlias[o] = true
-				}
-			}
-		}
-	}
-	isLen := func(e ast.Expr) bool {
-		e = unparen(e)
-		if lenAlias[c.obj(e)] {
-			return true
-		}
-		call, ok := e.(*ast.CallExpr)
-		return ok && c.isBuiltin(call, "len") && len(call.Args) == 1 && c.obj(call.Args[0]) == values
-	}
-	// odd-count panic: an if statement at top level, before the loop, whose body panics
-	var oddIf *ast.IfStmt
-	var loop *ast.ForStmt
-	for _, s := range fd.Body.List {
-		switch x := s.(type) {
-		case *ast.IfStmt:
-			if oddIf == nil && loop == nil && blockPanicsOnly(c, x.Body.List) {
-				oddIf = x
-			}
-		case *ast.ForStmt:
-			if loop == nil {
-				loop = x
-			}
-		}
-	}
-	ob := c.Ob("C06.R1", "(*object).Set/odd-count-panic", fd.Pos())
-	if oddIf == nil {
-		ob.Fail("no panic guard before the pair loop")
-	} else {
-		good := true
-		why := ""
-		for n := int64(0); n <= 9 && good; n++ {
-			ev := &evalEnv{c: c, hook: func(e ast.Expr) (int64, bool) {
-				if isLen(e) {
-					return n, true
-				}
-				return 0, false
-			}}
-			v, ok := ev.bool(oddIf.Cond)
-			if !ok {
-				good, why = false, "guard outside the vocabulary: "+ev.fail
-			} else if v != (n%2 == 1) {
-				good, why = false, "guard is "+boolStr(v)+" for "+itoa(int(n))+" arguments"
-			}
-		}
-		if good {
-			ob.Ok("guard folds to `argument count is odd` for counts 0..9")
-		} else {
-			ob.Fail("the panic before the loop is not guarded by exactly `odd number of arguments`: %s", why)
-		}
-	}
-	lob := c.Ob("C06.R1", "(*object).Set/pair-loop", fd.Pos())
-	if loop == nil || len(allLoops(fd)) != 1 {
-		lob.Fail("expected exactly one for loop over the pairs")
-		return
-	}
-	h, ok := c.forHeader(loop)
-	if !ok {
-		lob.Undecided("loop header outside the vocabulary")
-		return
-	}
-	s0, okS := c.constInt(h.Start)
-	if !okS || s0 != 0 || h.Step != 2 || h.Incl || !isLen(h.Bound) {
-		lob.Fail("pairs are not visited as i = 0, 2, 4, … < len(values) in ascending order (start %s, step %d): with duplicate keys the last pair must win", exprStr(h.Start), h.Step)
-		return
-	}
-	if why := loopHasEarlyExit(loop); why != "" {
-		lob.Fail("%s inside the pair loop", why)
-		return
-	}
-	nf := c.loopNormalForm(loop.Body)
-	if len(nf.Undecided) > 0 {
-		lob.Undecided("pair loop body outside the vocabulary: %v", nf.Undecided)
-		return
-	}
-	// expect: test name,ok := values[i].(string); action panic guarded by !ok; action map assignment unguarded (after the panic)
-	idxIs := func(e ast.Expr, off int64) bool {
-		ix, ok := unparen(e).(*ast.IndexExpr)
-		if !ok || c.obj(ix.X) != values {
-			return false
-		}
-		for _, iv := range []int64{0, 2, 6} {
-			ev := &evalEnv{c: c, vars: map[types.Object]int64{h.Var: iv}}
-			v, ok := ev.int(ix.Index)
-			if !ok || v != iv+off {
-				return false
-			}
-		}
-		return true
-	}
-	var keyTest *kindTest
-	for _, t := range nf.Tests {
-		if b, ok := t.T.(*types.Basic); ok && b.Kind() == types.String && idxIs(t.Operand, 0) {
-			keyTest = t
-		}
-	}
-	if keyTest == nil || len(nf.Tests) != 1 || keyTest.Ok == nil || keyTest.Val == nil {
-		lob.Fail("the key is not obtained by the comma-ok assertion values[i].(string)")
-		return
-	}
-	var panics, assigns []lAction
-	for _, a := range nf.Actions {
-		switch a.Kind {
-		case "call":
-			if call, ok := a.Stmt.(*ast.ExprStmt).X.(*ast.CallExpr); ok && c.isBuiltin(call, "panic") {
-				panics = append(panics, a)
-				continue
-			}
-			assigns = append(assigns, a)
-		default:
-			assigns = append(assigns, a)
-		}
-	}
-	pob := c.Ob("C06.R1", "(*object).Set/key-panic", loop.Pos())
-	if len(panics) == 1 && len(panics[0].Guard) == 1 && panics[0].Guard[0].Neg && c.obj(panics[0].Guard[0].Expr) == keyTest.Ok {
-		pob.Ok("panics exactly when values[i] is not a string")
-	} else {
-		pob.Fail("the in-loop panic is not guarded by exactly `!ok` of the key assertion")
-	}
-	good := false
-	if len(assigns) == 1 && len(assigns[0].Guard) == 0 {
-		if as, ok := assigns[0].Stmt.(*ast.AssignStmt); ok && as.Tok == token.ASSIGN && len(as.Lhs) == 1 && len(as.Rhs) == 1 {
-			if ix, ok := unparen(as.Lhs[0]).(*ast.IndexExpr); ok && c.isRecvSpine(fd, ix.X) && c.obj(ix.Index) == keyTest.Val {
-				if call, ok := unparen(as.Rhs[0]).(*ast.CallExpr); ok && len(call.Args) == 1 && idxIs(call.Args[0], 1) {
-					if cal := c.callee(call); cal != nil && cal.Name() == "parseVal" && cal.Pkg() == c.Types {
-						good = true
-					}
-				}
-			}
-		}
-	}
-	lob.Check(good, "for i = 0,2,…: spine[values[i].(string)] = parseVal(values[i+1]) — plain map assignment in argument order, so the last pair wins",
-		"pair loop does not perform exactly one unconditional `spine[key_i] = parseVal(values[i+1])` per pair")
 }
 
 func boolStr(b bool) string {
@@ -225,6 +71,279 @@ func writesVarAfterDef(c *Ctx, fd *ast.FuncDecl, v types.Object) bool {
 	return n > 1
 }
 
+// lenOfParam: t is len(param).
+func lenOfParam(t Term, par types.Object) bool {
+	b, ok := t.(TBuiltin)
+	return ok && b.Name == "len" && len(b.Args) == 1 && isParamTerm(b.Args[0], par)
+}
+
+func c06Set(c *Ctx) {
+	fd := c.NeedDecl("C06.R1", "(*object).Set")
+	if fd == nil {
+		return
+	}
+	values := soleParam(c, fd)
+	ob := c.Ob("C06.R1", "(*object).Set/odd-count-panic", fd.Pos())
+	lob := c.Ob("C06.R1", "(*object).Set/pair-loop", fd.Pos())
+	pob := c.Ob("C06.R1", "(*object).Set/key-panic", fd.Pos())
+	paths, why := c.runPaths(fd)
+	if why != "" || values == nil {
+		ob.Undecided("body outside the path vocabulary: %s", why)
+		return
+	}
+	v := c.view(fd)
+	oddBad, loopBad, keyBad, undec := "", "", "", ""
+	for L := int64(0); L <= 8 && undec == ""; L++ {
+		hook := func(t Term) (int64, bool) {
+			if lenOfParam(t, values) {
+				return L, true
+			}
+			return 0, false
+		}
+		sel, why := pathsFor(paths, hook, func(cd Cond) bool { return !intFoldable(cd.T) })
+		if why != "" {
+			undec = why
+			break
+		}
+		if len(sel) == 0 {
+			undec = "no path is feasible for " + itoa(int(L)) + " arguments"
+			break
+		}
+		for _, p := range sel {
+			wrote := false
+			var loop *LoopRec
+			for _, s := range p.Steps {
+				if v.writesPreexisting(s) {
+					wrote = true
+				}
+				if s.Kind == "loop" {
+					loop = s.Loop
+				}
+			}
+			if L%2 == 1 {
+				// an in-loop panic path also ends in panic: require the panic to come before the loop and before any write
+				if p.End != "panic" || wrote || loop != nil {
+					oddBad = itoa(int(L)) + " arguments: the call does not panic before any pair is applied"
+				}
+				continue
+			}
+			if p.End == "panic" && loop == nil {
+				oddBad = itoa(int(L)) + " arguments (even): the call panics"
+				continue
+			}
+			if loop == nil {
+				if L > 0 {
+					loopBad = "no pair loop on the path for " + itoa(int(L)) + " arguments"
+				}
+				continue
+			}
+			// simulate the header
+			its, why := c.loopIterations(loop, hook, 32)
+			if why != "" {
+				undec = why
+				break
+			}
+			if int64(len(its)) != L/2 {
+				loopBad = itoa(int(L)) + " arguments: the loop runs " + itoa(len(its)) + " times, expected " + itoa(int(L/2))
+				continue
+			}
+			// iteration paths: key test
+			for j, st := range its {
+				h := func(t Term) (int64, bool) {
+					if lv, ok := t.(TLoop); ok {
+						if val, ok := st[lv.Obj]; ok {
+							return val, true
+						}
+					}
+					return hook(t)
+				}
+				if msg := c06Iteration(c, v, loop, values, h, int64(j), &keyBad); msg != "" {
+					loopBad = msg
+				}
+			}
+		}
+	}
+	switch {
+	case undec != "":
+		ob.Undecided("%s", undec)
+		return
+	case oddBad != "":
+		ob.Fail("the odd-count panic is not exactly `odd number of arguments, before any write`: %s", oddBad)
+	default:
+		ob.Ok("panics for every odd argument count 1..7 before any pair is applied; never for an even count (folded 0..8)")
+	}
+	if loopBad != "" {
+		lob.Fail("%s", loopBad)
+	} else {
+		lob.Ok("pairs j = 0,1,… in ascending order: spine[values[2j].(string)] = parseVal(values[2j+1]) — plain map assignment in argument order, so the last pair wins (header simulated for 0..8 arguments)")
+	}
+	if keyBad != "" {
+		pob.Fail("%s", keyBad)
+	} else {
+		pob.Ok("panics exactly when values[2j] is not a string, before that pair is written")
+	}
+}
+
+// c06Iteration checks the iteration paths of Set's pair loop for iteration j.
+func c06Iteration(c *Ctx, v *sxView, loop *LoopRec, values types.Object, h func(Term) (int64, bool), j int64, keyBad *string) string {
+	var okPath, panicPath *Path
+	for _, p := range loop.Iter {
+		switch p.End {
+		case "panic":
+			panicPath = p
+		case "fall", "continue":
+			okPath = p
+		default:
+			return "pair loop body has an early exit (" + p.End + ")"
+		}
+	}
+	if okPath == nil || panicPath == nil || len(loop.Iter) != 2 {
+		*keyBad = "the loop body does not consist of exactly: key assertion, panic on a non-string key, one map assignment"
+		return ""
+	}
+	// key test atom
+	conds := okPath.Conds()
+	if len(conds) != 1 || len(panicPath.Conds()) != 1 || !sameTerm(conds[0].T, panicPath.Conds()[0].T) || !conds[0].Truth || panicPath.Conds()[0].Truth {
+		*keyBad = "the in-loop panic is not guarded by exactly the failed string assertion of the key"
+		return ""
+	}
+	pr, ok := conds[0].T.(TProj)
+	var as TAssert
+	if ok {
+		as, ok = pr.X.(TAssert)
+	}
+	if !ok || pr.K != 1 {
+		*keyBad = "the key is not obtained by a comma-ok assertion"
+		return ""
+	}
+	if b, isB := as.To.(*types.Basic); !isB || b.Kind() != types.String {
+		*keyBad = "the key is asserted to " + shortType(as.To) + ", not string"
+		return ""
+	}
+	kix, ok := as.X.(TIndex)
+	if !ok || !isParamTerm(kix.X, values) {
+		*keyBad = "the asserted key is not an element of the argument list"
+		return ""
+	}
+	e := &termEnv{hook: h}
+	ki, ok := e.int(kix.I)
+	if !ok || ki != 2*j {
+		return "iteration " + itoa(int(j)) + " takes its key from values[" + itoa(int(ki)) + "], expected values[" + itoa(int(2*j)) + "] (pairs must be applied in argument order)"
+	}
+	for _, s := range panicPath.Steps {
+		if v.writesPreexisting(s) {
+			*keyBad = "a pair is written before the key-type panic"
+		}
+	}
+	// effects of the ok path: exactly one store spine[key] = parseVal(values[2j+1])
+	effs := okPath.Effects()
+	if len(effs) != 1 || effs[0].Kind != "store" {
+		return "a pair is not applied by exactly one map assignment"
+	}
+	lhs, ok := effs[0].LHS.(TIndex)
+	if !ok || !v.isRecvSpine(lhs.X) || !sameTerm(lhs.I, TProj{as, 0}) {
+		return "the assignment target is not spine[asserted key]"
+	}
+	pv, ok := effs[0].RHS.(TCall)
+	if !ok || pv.Fun == nil || pv.Fun.Name() != "parseVal" || pv.Fun.Pkg() != c.Types || len(pv.Args) != 1 {
+		return "the stored value is not parseVal(…)"
+	}
+	vix, ok := pv.Args[0].(TIndex)
+	if !ok || !isParamTerm(vix.X, values) {
+		return "the stored value is not taken from the argument list"
+	}
+	e2 := &termEnv{hook: h}
+	vi, ok := e2.int(vix.I)
+	if !ok || vi != 2*j+1 {
+		return "iteration " + itoa(int(j)) + " stores values[" + itoa(int(vi)) + "], expected values[" + itoa(int(2*j+1)) + "]"
+	}
+	return ""
+}
+
+// visitsEachOnce: the loop visits every element of the slice parameter exactly once and elem is that element.
+func (c *Ctx) visitsEachOnce(l *LoopRec, par types.Object, elem Term) string {
+	if l.Range != nil {
+		if !isParamTerm(l.Over, par) {
+			return "the loop does not range over the argument list"
+		}
+		if l.Value != nil && isParamTerm(elem, l.Value) {
+			return ""
+		}
+		if ix, ok := elem.(TIndex); ok && isParamTerm(ix.X, par) && l.Key != nil && isParamTerm(ix.I, l.Key) {
+			return ""
+		}
+		return "the loop body does not use the current element of the argument list"
+	}
+	ix, ok := elem.(TIndex)
+	if !ok || !isParamTerm(ix.X, par) {
+		return "the loop body does not use an element of the argument list"
+	}
+	for L := int64(0); L <= 4; L++ {
+		hook := func(t Term) (int64, bool) {
+			if lenOfParam(t, par) {
+				return L, true
+			}
+			return 0, false
+		}
+		its, why := c.loopIterations(l, hook, 16)
+		if why != "" {
+			return why
+		}
+		seen := map[int64]bool{}
+		for _, st := range its {
+			e := &termEnv{hook: func(t Term) (int64, bool) {
+				if lv, ok := t.(TLoop); ok {
+					if val, ok := st[lv.Obj]; ok {
+						return val, true
+					}
+				}
+				return hook(t)
+			}}
+			k, ok := e.int(ix.I)
+			if !ok || k < 0 || k >= L || seen[k] {
+				return "with " + itoa(int(L)) + " arguments the loop does not visit each of them exactly once"
+			}
+			seen[k] = true
+		}
+		if int64(len(seen)) != L {
+			return "with " + itoa(int(L)) + " arguments the loop visits " + itoa(len(seen)) + " of them"
+		}
+	}
+	return ""
+}
+
+// singleLoopPath: the function has exactly one non-panicking path, containing exactly one loop; returns them.
+func singleLoopPath(paths []*Path) (*Path, *LoopRec, string) {
+	var main *Path
+	for _, p := range paths {
+		last := Step{}
+		if len(p.Steps) > 0 {
+			last = p.Steps[len(p.Steps)-1]
+		}
+		_ = last
+		// in-loop exits are surfaced as extra outer paths: the main path is the one whose loop step is followed by no iteration steps
+		if main == nil {
+			main = p
+		}
+	}
+	if len(paths) != 1 {
+		return nil, nil, "expected a single path (found " + itoa(len(paths)) + ")"
+	}
+	var loop *LoopRec
+	for _, s := range main.Steps {
+		if s.Kind == "loop" {
+			if loop != nil {
+				return nil, nil, "more than one loop"
+			}
+			loop = s.Loop
+		}
+	}
+	if loop == nil {
+		return nil, nil, "no loop"
+	}
+	return main, loop, ""
+}
+
 func c06Basics(c *Ctx) {
 	n := 0
 	// Unset
@@ -232,29 +351,44 @@ func c06Basics(c *Ctx) {
 		n++
 		ob := c.Ob("C06.R2", "(*object).Unset", fd.Pos())
 		keys := soleParam(c, fd)
-		good := len(fd.Body.List) == 2
-		if good {
-			rs, ok := fd.Body.List[0].(*ast.RangeStmt)
-			good = ok && c.obj(rs.X) == keys && keys != nil && loopHasEarlyExit(rs) == "" && len(rs.Body.List) == 1
-			if good {
-				es, ok := rs.Body.List[0].(*ast.ExprStmt)
-				good = ok
-				if good {
-					call, ok := es.X.(*ast.CallExpr)
-					good = ok && c.isBuiltin(call, "delete") && len(call.Args) == 2 && c.isRecvSpine(fd, call.Args[0]) && rs.Value != nil && c.sameExpr(call.Args[1], rs.Value)
+		paths, why := c.runPaths(fd)
+		v := c.view(fd)
+		msg := why
+		if msg == "" {
+			p, loop, w := singleLoopPath(paths)
+			msg = w
+			if msg == "" {
+				if len(p.Effects()) != 1 || p.End != "return" || len(p.Vals) != 1 || !v.isEgo(p.Vals[0]) {
+					msg = "Unset does more than the deletion loop and the fluent return"
+				} else if len(loop.Iter) != 1 || len(loop.Iter[0].Conds()) != 0 || len(loop.Iter[0].Effects()) != 1 {
+					msg = "loop body is not exactly one delete"
+				} else {
+					s := loop.Iter[0].Effects()[0]
+					if s.Blt == nil || s.Blt.Name != "delete" || len(s.Blt.Args) != 2 || !v.isRecvSpine(s.Blt.Args[0]) {
+						msg = "loop body is not delete(spine, key)"
+					} else {
+						msg = c.visitsEachOnce(loop, keys, s.Blt.Args[1])
+					}
 				}
 			}
 		}
-		ob.Check(good, "delete(spine, key) for every argument and nothing else (a missing key is a no-op by map semantics; no argument => no change)", "Unset is not exactly one delete(spine, key) per argument")
+		if msg == "" {
+			ob.Ok("delete(spine, key) once for every argument and nothing else (a missing key is a no-op by map semantics; no argument => no change)")
+		} else {
+			ob.Fail("Unset is not exactly one delete(spine, key) per argument: %s", msg)
+		}
 	}
 	// Clear
 	if fd := c.NeedDecl("C06.R2", "(*object).Clear"); fd != nil {
 		n++
 		ob := c.Ob("C06.R2", "(*object).Clear", fd.Pos())
-		good := len(fd.Body.List) == 2
+		paths, why := c.runPaths(fd)
+		v := c.view(fd)
+		good := why == "" && len(paths) == 1 && len(paths[0].Effects()) == 1 && paths[0].End == "return" && len(paths[0].Vals) == 1 && v.isEgo(paths[0].Vals[0])
 		if good {
-			as, ok := fd.Body.List[0].(*ast.AssignStmt)
-			good = ok && len(as.Lhs) == 1 && c.isRecvSpine(fd, as.Lhs[0]) && len(as.Rhs) == 1 && isEmptyFresh(c, as.Rhs[0])
+			s := paths[0].Effects()[0]
+			sel, ok := s.LHS.(TSel)
+			good = s.Kind == "store" && ok && sel.Field == v.ct.Spine && v.isRecv(sel.X) && isEmptyFreshTerm(s.RHS)
 		}
 		ob.Check(good, "installs a fresh empty map as the receiver's spine", "Clear does not install a fresh empty map")
 	}
@@ -263,79 +397,204 @@ func c06Basics(c *Ctx) {
 		n++
 		ob := c.Ob("C06.R2", "(*object).KeyExists", fd.Pos())
 		key := soleParam(c, fd)
-		good := len(fd.Body.List) == 2
-		if good {
-			as, ok := fd.Body.List[0].(*ast.AssignStmt)
-			r, ok2 := fd.Body.List[1].(*ast.ReturnStmt)
-			good = ok && ok2 && len(as.Lhs) == 2 && len(as.Rhs) == 1 && len(r.Results) == 1 && c.obj(r.Results[0]) == c.obj(as.Lhs[1]) && c.obj(as.Lhs[1]) != nil
-			if good {
-				ix, ok := unparen(as.Rhs[0]).(*ast.IndexExpr)
-				good = ok && c.isRecvSpine(fd, ix.X) && c.obj(ix.Index) == key
+		paths, why := c.runPaths(fd)
+		v := c.view(fd)
+		msg := why
+		if msg == "" {
+			classify := func(t Term) string {
+				if existsAtom(v, t, key) {
+					return "exists"
+				}
+				return ""
 			}
+			msg = truthTable(boolOutcomes(paths), []string{"exists"}, classify, func(a map[string]bool) (bool, bool) { return a["exists"], false })
 		}
-		ob.Check(good, "returns the comma-ok of spine[key]", "KeyExists is not `_, ok := spine[key]; return ok`")
+		if msg == "" {
+			ob.Ok("result == comma-ok of spine[key]")
+		} else {
+			ob.Fail("KeyExists is not the comma-ok of spine[key]: %s", msg)
+		}
 	}
 	// Get
 	if fd := c.NeedDecl("C06.R2", "(*object).Get"); fd != nil {
 		n++
 		ob := c.Ob("C06.R2", "(*object).Get", fd.Pos())
 		key := soleParam(c, fd)
-		good := len(fd.Body.List) == 3
-		if good {
-			as, ok := fd.Body.List[0].(*ast.AssignStmt)
-			is, ok2 := fd.Body.List[1].(*ast.IfStmt)
-			r, ok3 := fd.Body.List[2].(*ast.ReturnStmt)
-			good = ok && ok2 && ok3 && len(as.Lhs) == 2 && len(as.Rhs) == 1 && len(r.Results) == 1
-			if good {
-				ix, ok := unparen(as.Rhs[0]).(*ast.IndexExpr)
-				good = ok && c.isRecvSpine(fd, ix.X) && c.obj(ix.Index) == key
-				at := atomOf(is.Cond, false)
-				good = good && at.Neg && c.obj(at.Expr) == c.obj(as.Lhs[1]) && c.obj(as.Lhs[1]) != nil && blockPanicsOnly(c, is.Body.List) && is.Else == nil
-				fv, _ := c.obj(as.Lhs[0]).(*types.Var)
-				good = good && fv != nil && c.elemForm(r.Results[0], fv) == "val"
+		paths, why := c.runPaths(fd)
+		v := c.view(fd)
+		msg := why
+		for _, p := range paths {
+			if msg != "" {
+				break
+			}
+			conds := p.Conds()
+			if len(conds) != 1 || !existsAtom(v, conds[0].T, key) || len(p.Effects()) != 0 {
+				msg = "the only decision must be the presence test of spine[key]"
+				break
+			}
+			if conds[0].Truth {
+				el, ok := (Term)(nil), false
+				if p.End == "return" && len(p.Vals) == 1 {
+					el, ok = v.valueOf(p.Vals[0])
+				}
+				pr, isP := el.(TProj)
+				if !ok || !isP || pr.K != 0 || !sameTerm(pr.X, conds[0].T.(TProj).X) {
+					msg = "a present key does not return spine[key].getVal()"
+				}
+			} else if p.End != "panic" {
+				msg = "a missing key does not panic"
 			}
 		}
-		ob.Check(good, "f, ok := spine[key]; panics exactly when !ok; returns f.getVal() (the identical nested container for containers)", "Get is not `f, ok := spine[key]; if !ok {panic}; return f.getVal()`")
+		if msg == "" && len(paths) != 2 {
+			msg = "expected exactly the two outcomes present / missing"
+		}
+		if msg == "" {
+			ob.Ok("f, ok := spine[key]; panics exactly when !ok; returns f.getVal() (the identical nested container for containers)")
+		} else {
+			ob.Fail("Get is not `f, ok := spine[key]; if !ok {panic}; return f.getVal()`: %s", msg)
+		}
 	}
 	// KeyOf
 	if fd := c.NeedDecl("C06.R2", "(*object).KeyOf"); fd != nil {
 		n++
 		ob := c.Ob("C06.R2", "(*object).KeyOf", fd.Pos())
-		val := soleParam(c, fd)
-		sl := spineLoops(c, fd)
-		good := len(sl) == 1 && len(fd.Body.List) == 2 && fd.Body.List[0] == ast.Stmt(sl[0].Stmt)
-		if good {
-			l := sl[0]
-			nf := c.loopNormalForm(l.Stmt.Body)
-			good = len(nf.Undecided) == 0 && len(nf.Actions) == 1 && nf.Actions[0].Kind == "return" && len(nf.Actions[0].Guard) == 1 && !nf.Actions[0].Guard[0].Neg
-			if good {
-				ret := nf.Actions[0].Stmt.(*ast.ReturnStmt)
-				good = len(ret.Results) == 1 && l.Key != nil && c.obj(ret.Results[0]) == l.Key
-				be, ok := nf.Actions[0].Guard[0].Expr.(*ast.BinaryExpr)
-				good = good && ok && be.Op == token.EQL && ((c.elemForm(be.X, l.Value) == "val" && c.obj(be.Y) == val) || (c.elemForm(be.Y, l.Value) == "val" && c.obj(be.X) == val))
-			}
-			es, ok := fd.Body.List[1].(*ast.ExprStmt)
-			good = good && ok
-			if good {
-				call, ok := es.X.(*ast.CallExpr)
-				good = ok && c.isBuiltin(call, "panic")
-			}
+		if why := searchShape(c, fd, "keyOrPanic"); why == "" {
+			ob.Ok("returns the key of the first field whose getVal() == value; panics exactly after an exhausted search")
+		} else {
+			ob.Fail("KeyOf is not a search loop returning the range key followed by a panic: %s", why)
 		}
-		ob.Check(good, "returns the key of the first field whose getVal() == value; panics exactly after an exhausted search", "KeyOf is not a search loop returning the range key followed by a panic")
 	}
 	c.R.Floor("C06.R2", n, 5)
 }
 
-// isEmptyFresh: T{} composite literal without elements, or make(T[, n]).
-func isEmptyFresh(c *Ctx, e ast.Expr) bool {
-	e = unparen(e)
-	switch x := e.(type) {
-	case *ast.CompositeLit:
-		return len(x.Elts) == 0
-	case *ast.CallExpr:
-		return c.isBuiltin(x, "make")
+// existsAtom: t is the comma-ok of spine[key] of the receiver.
+func existsAtom(v *sxView, t Term, key types.Object) bool {
+	pr, ok := t.(TProj)
+	if !ok || pr.K != 1 {
+		return false
+	}
+	ix, ok := pr.X.(TIndex)
+	return ok && v.isRecvSpine(ix.X) && isParamTerm(ix.I, key)
+}
+
+func isEmptyFreshTerm(t Term) bool {
+	switch x := t.(type) {
+	case TLit:
+		return len(x.Elts) == 0 && x.Node != nil
+	case TBuiltin:
+		return x.Name == "make"
 	}
 	return false
+}
+
+// searchShape: `for k, e := range recv.spine { if e.getVal() == param { HIT } }; MISS` on the surfaced outer paths.
+// what: "key" (hit: return the range key, miss: return -1), "true" (hit: true, miss: false), "keyOrPanic" (hit: key, miss: panic).
+func searchShape(c *Ctx, fd *ast.FuncDecl, what string) string {
+	paths, why := c.runPaths(fd)
+	if why != "" {
+		return "body outside the path vocabulary: " + why
+	}
+	v := c.view(fd)
+	par := soleParam(c, fd)
+	hits, misses := 0, 0
+	for _, p := range paths {
+		li := -1
+		var loop *LoopRec
+		for i, s := range p.Steps {
+			switch s.Kind {
+			case "loop":
+				if loop != nil {
+					return "more than one loop"
+				}
+				loop, li = s.Loop, i
+			case "cond":
+				if loop == nil {
+					return "a decision precedes the search loop"
+				}
+			default:
+				return "unexpected effect " + c.stepStr(s)
+			}
+		}
+		if loop == nil {
+			return "a path bypasses the search loop"
+		}
+		if loop.Range == nil || !v.isRecvSpine(loop.Over) {
+			return "the loop does not range over the receiver's own spine"
+		}
+		after := p.Steps[li+1:]
+		result := p.Vals
+		if len(result) > 1 {
+			result = result[:1]
+		}
+		if len(after) == 0 {
+			// exhausted search
+			misses++
+			switch what {
+			case "key":
+				k, ok := constInt(simplifyRet(p))
+				if p.End != "return" || !ok || k != -1 {
+					return "an exhausted search does not return -1"
+				}
+			case "true":
+				if p.End != "return" || len(p.Vals) != 1 || !isConstBoolTerm(simplify(p.Vals[0]), false) {
+					return "an exhausted search does not return false"
+				}
+			case "keyOrPanic":
+				if p.End != "panic" {
+					return "an exhausted search does not panic"
+				}
+			}
+			continue
+		}
+		// a hit: exactly the positive match test
+		if len(after) != 1 || after[0].Kind != "cond" {
+			return "a hit is guarded by more than the match test"
+		}
+		cd := after[0].Cond
+		b, ok := cd.T.(TBin)
+		if !ok || (b.Op != token.EQL && b.Op != token.NEQ) || cd.Truth != (b.Op == token.EQL) {
+			return "the hit is not guarded by element.getVal() == argument"
+		}
+		elemVal := func(t Term) bool {
+			e, ok := v.valueOf(t)
+			if !ok {
+				return false
+			}
+			if loop.Value != nil && isParamTerm(e, loop.Value) {
+				return true
+			}
+			ix, ok := e.(TIndex)
+			return ok && v.isRecvSpine(ix.X) && loop.Key != nil && isParamTerm(ix.I, loop.Key)
+		}
+		if !((elemVal(b.X) && isParamTerm(b.Y, par)) || (elemVal(b.Y) && isParamTerm(b.X, par))) {
+			return "match test does not compare element.getVal() with the argument"
+		}
+		hits++
+		switch what {
+		case "key", "keyOrPanic":
+			if p.End != "return" || len(result) != 1 || loop.Key == nil || !isParamTerm(result[0], loop.Key) {
+				return "a match does not return the range key"
+			}
+		case "true":
+			if p.End != "return" || len(result) != 1 || !isConstBoolTerm(simplify(result[0]), true) {
+				return "a match does not return true"
+			}
+		}
+		// the non-matching iteration must simply continue
+		cont := false
+		for _, ip := range loop.Iter {
+			if (ip.End == "fall" || ip.End == "continue") && len(ip.Effects()) == 0 && len(ip.Conds()) == 1 && sameTerm(ip.Conds()[0].T, cd.T) && ip.Conds()[0].Truth != cd.Truth {
+				cont = true
+			}
+		}
+		if !cont || len(loop.Iter) != 2 {
+			return "a non-matching element does not simply continue the search"
+		}
+	}
+	if hits != 1 || misses != 1 {
+		return "expected exactly one hit path and one exhausted path (found " + itoa(hits) + "/" + itoa(misses) + ")"
+	}
+	return ""
 }
 
 func c06Merge(c *Ctx) {
@@ -345,69 +604,75 @@ func c06Merge(c *Ctx) {
 	}
 	ob := c.Ob("C06.R3", "(*object).Merge", fd.Pos())
 	another := soleParam(c, fd)
-	if len(fd.Body.List) != 3 || another == nil {
-		ob.Fail("Merge is not: result := clone of receiver; iterate the argument setting into result; return result")
+	paths, why := c.runPaths(fd)
+	v := c.view(fd)
+	if why != "" || len(paths) != 1 || another == nil {
+		ob.Fail("Merge is not: result := clone of receiver; iterate the argument setting into result; return result (%d paths %s)", len(paths), why)
 		return
 	}
-	as, ok := fd.Body.List[0].(*ast.AssignStmt)
-	if !ok || len(as.Lhs) != 1 || len(as.Rhs) != 1 {
-		ob.Fail("first statement does not create the result")
+	p := paths[0]
+	if p.End != "return" || len(p.Vals) != 1 || len(p.Conds()) != 0 {
+		ob.Fail("Merge is not a straight-line derivation (a size- or content-dependent shortcut changes which side wins on a shared key)")
 		return
 	}
-	result := c.obj(as.Lhs[0])
-	call, ok := unparen(as.Rhs[0]).(*ast.CallExpr)
-	if !ok || len(call.Args) != 0 {
-		ob.Fail("result is not a clone")
+	result := p.Vals[0]
+	rc, ok := result.(TCall)
+	if !ok || rc.Fun == nil || rc.Fun.Name() != "Clone" || len(rc.Args) != 0 {
+		ob.Fail("the result is not a clone")
 		return
 	}
-	sel, ok := unparen(call.Fun).(*ast.SelectorExpr)
-	cal := c.callee(call)
-	if !ok || cal == nil || cal.Name() != "Clone" {
-		ob.Fail("result is not created by Clone")
+	if rc.Recv == nil || !v.isSelf(rc.Recv) {
+		ob.Fail("the clone is taken of %s, not of the receiver: on a shared key the receiver's value would win instead of the argument's", c.termStr(rc.Recv))
 		return
 	}
-	if !c.isSelf(fd, sel.X) {
-		ob.Fail("the clone is taken of %s, not of the receiver: on a shared key the receiver's value would win instead of the argument's", exprStr(sel.X))
+	// exactly one further effect: another.ForEach(func(k, v) { result.Set(k, v) })
+	var it *TCall
+	for _, s := range p.Effects() {
+		if s.Kind == "call" && s.Call != nil && s.Call.Fun != nil {
+			if s.Call.Fun.Name() == "Clone" {
+				continue
+			}
+			if it != nil {
+				ob.Fail("more than one effect besides the clone")
+				return
+			}
+			it = s.Call
+			continue
+		}
+		ob.Fail("unexpected effect %s", c.stepStr(s))
 		return
 	}
-	es, ok := fd.Body.List[1].(*ast.ExprStmt)
-	var it *ast.CallExpr
-	if ok {
-		it, _ = es.X.(*ast.CallExpr)
-	}
-	if it == nil || len(it.Args) != 1 {
-		ob.Fail("second statement is not an iteration of the argument")
-		return
-	}
-	isel, ok := unparen(it.Fun).(*ast.SelectorExpr)
-	ical := c.callee(it)
-	lit, isLit := unparen(it.Args[0]).(*ast.FuncLit)
-	if !ok || c.obj(isel.X) != another || ical == nil || ical.Name() != "ForEach" || !isLit {
+	if it == nil || it.Fun.Name() != "ForEach" || it.Recv == nil || !isParamTerm(it.Recv, another) || len(it.Args) != 1 {
 		ob.Fail("the pairs set into the result do not come from ForEach over the argument")
 		return
 	}
+	lit, ok := it.Args[0].(TLit)
+	fl, isFl := lit.Node.(*ast.FuncLit)
+	if !ok || !isFl {
+		ob.Fail("ForEach is not given a function literal")
+		return
+	}
 	var ps []types.Object
-	for _, f := range lit.Type.Params.List {
+	for _, f := range fl.Type.Params.List {
 		for _, nm := range f.Names {
 			ps = append(ps, c.Info.Defs[nm])
 		}
 	}
-	good := len(ps) == 2 && len(lit.Body.List) == 1
+	bp := c.NewSX().RunStmts(fl.Body.List, p.Env)
+	good := len(ps) == 2 && len(bp) == 1 && bp[0].Why == "" && len(bp[0].Conds()) == 0 && len(bp[0].Effects()) == 1
 	if good {
-		les, ok := lit.Body.List[0].(*ast.ExprStmt)
-		good = ok
+		s := bp[0].Effects()[0]
+		good = s.Kind == "call" && s.Call != nil && s.Call.Fun != nil && s.Call.Fun.Name() == "Set" && s.Call.Recv != nil && sameTerm(s.Call.Recv, result)
 		if good {
-			sc, ok := les.X.(*ast.CallExpr)
-			good = ok && len(sc.Args) == 2 && c.obj(sc.Args[0]) == ps[0] && c.obj(sc.Args[1]) == ps[1]
-			if good {
-				ssel, ok := unparen(sc.Fun).(*ast.SelectorExpr)
-				scal := c.callee(sc)
-				good = ok && c.obj(ssel.X) == result && scal != nil && scal.Name() == "Set"
+			args := s.Call.Args
+			if len(args) == 1 {
+				if pack, ok := args[0].(TLit); ok {
+					args = pack.Elts
+				}
 			}
+			good = len(args) == 2 && isParamTerm(args[0], ps[0]) && isParamTerm(args[1], ps[1])
 		}
 	}
-	r, isR := fd.Body.List[2].(*ast.ReturnStmt)
-	good = good && isR && len(r.Results) == 1 && c.obj(r.Results[0]) == result
 	ob.Check(good, "result = clone(receiver); argument.ForEach(k, v => result.Set(k, v)); return result — the argument's value wins on a shared key", "callback does not Set exactly (key, value) of the argument into the result")
 }
 
@@ -418,96 +683,146 @@ func c06Pluck(c *Ctx) {
 	}
 	ob := c.Ob("C06.R4", "(*object).Pluck", fd.Pos())
 	keys := soleParam(c, fd)
-	if len(fd.Body.List) != 3 || keys == nil {
-		ob.Fail("Pluck is not: result := NewObject(); loop over the requested keys; return result")
+	paths, why := c.runPaths(fd)
+	v := c.view(fd)
+	if why != "" {
+		ob.Undecided("body outside the path vocabulary: %s", why)
 		return
 	}
-	as, ok := fd.Body.List[0].(*ast.AssignStmt)
-	rs, ok2 := fd.Body.List[1].(*ast.RangeStmt)
-	r, ok3 := fd.Body.List[2].(*ast.ReturnStmt)
-	if !ok || !ok2 || !ok3 || len(as.Lhs) != 1 || len(as.Rhs) != 1 {
-		ob.Fail("unexpected statement kinds")
+	p, loop, msg := singleLoopPath(paths)
+	if msg != "" {
+		ob.Fail("Pluck is not: result := empty object; one loop over the requested keys; return result (%s)", msg)
 		return
 	}
-	result := c.obj(as.Lhs[0])
-	nc, ok := unparen(as.Rhs[0]).(*ast.CallExpr)
-	if !ok || len(nc.Args) != 0 || c.callee(nc) == nil || c.callee(nc).Name() != "NewObject" {
-		ob.Fail("result does not start as an empty NewObject()")
+	if p.End != "return" || len(p.Vals) != 1 || len(p.Conds()) != 0 {
+		ob.Fail("Pluck is not a straight-line derivation")
 		return
 	}
-	if c.obj(rs.X) != keys || rs.Value == nil {
-		ob.Fail("loop does not range over the requested keys")
+	result := p.Vals[0]
+	if !freshEmptyContainer(c, result, false) {
+		ob.Fail("the result does not start as an empty object (%s)", c.termStr(result))
 		return
 	}
-	if why := loopHasEarlyExit(rs); why != "" {
-		ob.Fail("%s inside the Pluck loop: some requested key is skipped", why)
+	for _, s := range p.Effects() {
+		if s.Kind == "loop" {
+			continue
+		}
+		if s.Kind == "call" && s.Call != nil && s.Call.Fun != nil && (s.Call.Fun.Name() == "NewObject" || s.Call.Fun.Name() == "Init") {
+			continue
+		}
+		ob.Fail("unexpected effect outside the loop: %s", c.stepStr(s))
 		return
 	}
-	nf := c.loopNormalForm(rs.Body)
-	if len(nf.Undecided) > 0 || len(nf.Actions) != 1 {
-		ob.Fail("loop body is not a single action")
+	if len(loop.Iter) != 1 {
+		ob.Fail("the Set is conditional: an absent key is silently skipped (or stored as a nil field) instead of panicking")
 		return
 	}
-	a := nf.Actions[0]
-	if len(a.Guard) != 0 {
-		ob.Fail("the Set is conditional (%s): an absent key is silently skipped instead of panicking", exprStr(a.Guard[0].Expr))
+	ip := loop.Iter[0]
+	effs := ip.Effects()
+	// Get may appear as a (pure) term only; the one effect is the Set
+	var set *TCall
+	for _, s := range effs {
+		if s.Kind == "call" && s.Call != nil && s.Call.Fun != nil && s.Call.Fun.Name() == "Set" && set == nil {
+			set = s.Call
+			continue
+		}
+		ob.Fail("loop body is not exactly result.Set(key, self.Get(key)): %s (an absent key must raise Get's panic)", c.stepStr(s))
 		return
 	}
-	good := false
-	if es, ok := a.Stmt.(*ast.ExprStmt); ok {
-		if sc, ok := es.X.(*ast.CallExpr); ok && len(sc.Args) == 2 && c.sameExpr(sc.Args[0], rs.Value) {
-			if ssel, ok := unparen(sc.Fun).(*ast.SelectorExpr); ok && c.obj(ssel.X) == result && c.callee(sc) != nil && c.callee(sc).Name() == "Set" {
-				if gc, ok := unparen(sc.Args[1]).(*ast.CallExpr); ok && len(gc.Args) == 1 && c.sameExpr(gc.Args[0], rs.Value) {
-					if gsel, ok := unparen(gc.Fun).(*ast.SelectorExpr); ok && c.isSelf(fd, gsel.X) && c.callee(gc) != nil && c.callee(gc).Name() == "Get" {
-						good = true
-					}
-				}
+	if set == nil || len(ip.Conds()) != 0 || (ip.End != "fall" && ip.End != "continue") || set.Recv == nil || !sameTerm(set.Recv, result) {
+		ob.Fail("loop body is not exactly result.Set(key, self.Get(key))")
+		return
+	}
+	args := set.Args
+	if len(args) == 1 {
+		if pack, ok := args[0].(TLit); ok {
+			args = pack.Elts
+		}
+	}
+	if len(args) != 2 {
+		ob.Fail("Set is not given one pair")
+		return
+	}
+	if msg := c.visitsEachOnce(loop, keys, args[0]); msg != "" {
+		ob.Fail("%s", msg)
+		return
+	}
+	gname, gargs, ok := v.selfCall(args[1])
+	ob.Check(ok && gname == "Get" && len(gargs) == 1 && sameTerm(gargs[0], args[0]), "for every requested key: result.Set(key, self.Get(key)) unconditionally (absent key => Get's panic); exactly the requested keys", "the stored value is not self.Get(key)")
+}
+
+// freshEmptyContainer: NewObject()/NewList() without arguments, or a container literal with a fresh empty spine.
+func freshEmptyContainer(c *Ctx, t Term, list bool) bool {
+	switch x := t.(type) {
+	case TCall:
+		return x.Fun != nil && x.Fun.Pkg() == c.Types && x.Fun.Name() == ctorName(list) && len(x.Args) == 0
+	case TAddr:
+		lit, ok := x.X.(TLit)
+		if !ok {
+			return false
+		}
+		for _, e := range lit.Elts {
+			if isEmptyFreshTerm(e) {
+				return true
 			}
 		}
 	}
-	good = good && len(r.Results) == 1 && c.obj(r.Results[0]) == result
-	ob.Check(good, "for every requested key: result.Set(key, self.Get(key)) unconditionally (absent key => Get's panic); exactly the requested keys", "loop body is not result.Set(key, self.Get(key))")
+	return false
 }
 
 func c06Views(c *Ctx) {
 	n := 0
-	for _, spec := range []struct{ name, verb, what string }{{"Keys", "Add", "key"}, {"Values", "Add", "val"}} {
+	for _, spec := range []struct{ name, what string }{{"Keys", "key"}, {"Values", "val"}} {
 		fd := c.NeedDecl("C06.R5", "(*object)."+spec.name)
 		if fd == nil {
 			continue
 		}
 		n++
 		ob := c.Ob("C06.R5", "(*object)."+spec.name, fd.Pos())
-		sl := spineLoops(c, fd)
-		if len(sl) != 1 || len(allLoops(fd)) != 1 {
-			ob.Fail("expected one range loop over the receiver's spine")
-			continue
-		}
-		l := sl[0]
-		if why := loopHasEarlyExit(l.Stmt); why != "" {
-			ob.Fail("%s inside the loop", why)
-			continue
-		}
-		nf := c.loopNormalForm(l.Stmt.Body)
-		good := len(nf.Undecided) == 0 && len(nf.Tests) == 0 && len(nf.Actions) == 1 && len(nf.Actions[0].Guard) == 0
-		if good {
-			es, ok := nf.Actions[0].Stmt.(*ast.ExprStmt)
-			good = ok
-			if good {
-				call, ok := es.X.(*ast.CallExpr)
-				good = ok && len(call.Args) == 1 && c.callee(call) != nil && c.callee(call).Name() == spec.verb
-				if good {
-					if spec.what == "key" {
-						good = l.Key != nil && c.obj(call.Args[0]) == l.Key
-					} else {
-						good = c.elemForm(call.Args[0], l.Value) == "val"
+		paths, why := c.runPaths(fd)
+		v := c.view(fd)
+		msg := why
+		if msg == "" {
+			p, loop, w := singleLoopPath(paths)
+			msg = w
+			if msg == "" {
+				switch {
+				case p.End != "return" || len(p.Vals) != 1 || !freshEmptyContainer(c, p.Vals[0], true):
+					msg = "the result is not a fresh list"
+				case loop.Range == nil || !v.isRecvSpine(loop.Over):
+					msg = "the loop does not range over the receiver's spine"
+				case len(loop.Iter) != 1 || len(loop.Iter[0].Conds()) != 0 || len(loop.Iter[0].Effects()) != 1:
+					msg = "loop body is not one unfiltered Add"
+				default:
+					s := loop.Iter[0].Effects()[0]
+					good := s.Kind == "call" && s.Call != nil && s.Call.Fun != nil && s.Call.Fun.Name() == "Add" && s.Call.Recv != nil && sameTerm(s.Call.Recv, p.Vals[0])
+					if good {
+						args := s.Call.Args
+						if len(args) == 1 {
+							if pack, ok := args[0].(TLit); ok {
+								args = pack.Elts
+							}
+						}
+						good = len(args) == 1
+						if good && spec.what == "key" {
+							good = loop.Key != nil && isParamTerm(args[0], loop.Key)
+						} else if good {
+							e, ok := v.valueOf(args[0])
+							good = ok && loop.Value != nil && isParamTerm(e, loop.Value)
+						}
+					}
+					if !good {
+						msg = "loop body does not add the " + map[string]string{"key": "range key", "val": "field's getVal()"}[spec.what]
 					}
 				}
 			}
 		}
-		ob.Check(good, "one unfiltered Add per field of the "+map[string]string{"key": "range key", "val": "field's getVal()"}[spec.what], spec.name+" does not add exactly one entry per field")
+		if msg == "" {
+			ob.Ok("one unfiltered Add per field of the %s", map[string]string{"key": "range key", "val": "field's getVal()"}[spec.what])
+		} else {
+			ob.Fail("%s does not add exactly one entry per field: %s", spec.name, msg)
+		}
 	}
-	// Contains on both containers: compares getVal() with ==
 	for _, ct := range c.Inv().Conts {
 		fd := c.Decl("(*" + ct.Named.Obj().Name() + ").Contains")
 		if fd == nil {
@@ -515,27 +830,40 @@ func c06Views(c *Ctx) {
 		}
 		n++
 		ob := c.Ob("C06.R5", "(*"+ct.Named.Obj().Name()+").Contains", fd.Pos())
-		val := soleParam(c, fd)
-		sl := spineLoops(c, fd)
-		good := len(sl) == 1 && len(fd.Body.List) == 2
-		if good {
-			l := sl[0]
-			nf := c.loopNormalForm(l.Stmt.Body)
-			good = len(nf.Undecided) == 0 && len(nf.Actions) == 1 && nf.Actions[0].Kind == "return" && len(nf.Actions[0].Guard) == 1 && !nf.Actions[0].Guard[0].Neg
-			if good {
-				be, ok := nf.Actions[0].Guard[0].Expr.(*ast.BinaryExpr)
-				good = ok && be.Op == token.EQL && ((c.elemForm(be.X, l.Value) == "val" && c.obj(be.Y) == val) || (c.elemForm(be.Y, l.Value) == "val" && c.obj(be.X) == val))
-				good = good && c.returnsConstBoolStmt(nf.Actions[0].Stmt, true)
+		why := searchShape(c, fd, "true")
+		if why != "" && ct.IsList {
+			// equivalent form: self.IndexOf(value) >= 0 (IndexOf decided by C05.R6)
+			paths, w2 := c.runPaths(fd)
+			v := c.view(fd)
+			par := soleParam(c, fd)
+			if w2 == "" && len(paths) == 1 && paths[0].End == "return" && len(paths[0].Vals) == 1 && len(paths[0].Effects()) == 0 {
+				if b, ok := simplify(paths[0].Vals[0]).(TBin); ok {
+					isIdx := func(t Term) bool {
+						nm, args, ok := v.selfCall(t)
+						return ok && nm == "IndexOf" && len(args) == 1 && isParamTerm(args[0], par)
+					}
+					k0, okk := constInt(b.X)
+					if b.Op == token.LEQ && okk && k0 == 0 && isIdx(b.Y) { // 0 <= IndexOf(v)
+						why = ""
+					}
+					km, okm := constInt(b.Y)
+					if b.Op == token.NEQ && okm && km == -1 && isIdx(b.X) {
+						why = ""
+					}
+					if b.Op == token.NEQ && okk && k0 == -1 && isIdx(b.Y) {
+						why = ""
+					}
+					if b.Op == token.LSS && okk && k0 == -1 && isIdx(b.Y) { // -1 < IndexOf(v)
+						why = ""
+					}
+				}
 			}
-			r, ok := fd.Body.List[1].(*ast.ReturnStmt)
-			good = good && ok && len(r.Results) == 1 && c.isConstBool(r.Results[0], false)
 		}
-		ob.Check(good, "true iff some element's getVal() == value (containers by identity, scalars by value)", "Contains is not the getVal()==value search")
+		if why == "" {
+			ob.Ok("true iff some element's getVal() == value (containers by identity, scalars by value)")
+		} else {
+			ob.Fail("Contains is not the getVal()==value search: %s", why)
+		}
 	}
 	c.R.Floor("C06.R5", n, 4)
-}
-
-func (c *Ctx) returnsConstBoolStmt(s ast.Stmt, v bool) bool {
-	r, ok := s.(*ast.ReturnStmt)
-	return ok && len(r.Results) == 1 && c.isConstBool(r.Results[0], v)
 }
